@@ -13,7 +13,7 @@ import (
 
 var specC08 = report.Spec{Property: "C08", Check: "C08",
 	Rule: "arbitrary and valid polygons x round grids only (synthetic dyadic with 2-4 tile matrices; NetherlandsRDNewQuad ids 0-16; roundness decided by the harness: span*1e10 mod 2^level == 0) x a drawn set of 2-4 ids x flags; " +
-		"for EVERY non-empty subset S of the drawn set (listed in drawn, rotated or reversed order): keys(Snap(p,S)) is a subset of S, and for every z in S the value Snap(p,S)[z] deep-equals Snap(p,{z})[z] (present or absent alike). " +
+		"for EVERY non-empty subset S of the drawn set (listed in drawn, rotated or reversed order, some with an id listed twice): keys(Snap(p,S)) is a subset of S, and for every z in S the value Snap(p,S)[z] deep-equals Snap(p,{z})[z] (present or absent alike). " +
 		"Non-trivial: >= 2 ids and the outcomes differ between levels (some requested tile matrix is absent or has a different number of polygons/rings/vertices than another). Distinct by case content.",
 	Assumptions: []string{"float equality is demanded because both sides come from the same deterministic conversion"}}
 
@@ -113,6 +113,9 @@ func oracleC08(c C08Case) (o report.Outcome) {
 					s[i], s[j] = s[j], s[i]
 				}
 			}
+		}
+		if mask%5 == 3 { // listing an id twice does not change the request either
+			s = append(s, s[mask%len(s)])
 		}
 		res := snapWith(c.SnapCase, c.Poly, s, c.config())
 		if res.Panic != nil {
